@@ -507,6 +507,18 @@ int vf_run_case(Src &s, Report &r) {
 		if (txv[i].cls[3] != B_H8) continue;	// X/27/4 carries triplets
 		std::set<int> allowed; bool haveW = false; Snap without;
 		for (auto &kv : ref.links) for (int l : kv.second) allowed.insert(l);
+		// every link target transmitted by any packet of this kind in the base (a link that is not updated keeps its earlier content, which
+		// no complete run may show: an earlier X/27/0 without the "display row 24" bit hides its links)
+		for (int j = 0; j < n; ++j) if ((txv[j].kind == K_X27 && txv[j].cls[3] == B_H8) || txv[j].kind == K_830) {
+			int nl = txv[j].kind == K_X27 ? 6 : 1;
+			for (int q = 0; q < nl; ++q) {
+				const uint8_t *raw = txv[j].b + 3 + 6 * q;
+				int b1 = vbi_unham16p(raw), b2 = vbi_unham16p(raw + 2), b3 = vbi_unham16p(raw + 4);
+				if ((b1 | b2 | b3) < 0) continue;
+				int m = ((b3 >> 5) & 6) + (b2 >> 7), mag0 = txv[j].kind == K_X27 ? (txv[j].mag & 7) : 0;
+				allowed.insert((((mag0 ^ m) ? (mag0 ^ m) : 8) << 8) + b1);
+			}
+		}
 		for (int k = 3; k < 42; ++k) {
 			if (txv[i].cls[k] != B_H8) continue;
 			unsigned reps = runs > budget ? 1 : 2;
